@@ -82,6 +82,38 @@ def run_mc(work, cfgname, workers, maxnow=3, timeout=900):
     return res
 
 
+SIM_RE = re.compile(r'^<<"STEP", (\d+), "(.*)", "(.*)">>$')
+
+
+def b3_scripts(work, cfgname, num, depth, sd):
+    """Binding B3: behaviours of CacheMC (TLC -simulate) turned into operation scripts for the sequential driver."""
+    path = os.path.join(work, "mcsim_%s.cfg" % cfgname)
+    with open(path, "w") as f:
+        f.write("SPECIFICATION Spec\nCONSTANTS\n  Cfg <- %s\n  MaxNow = 6\nACTION_CONSTRAINT SimLog\nCHECK_DEADLOCK FALSE\n" % cfgname)
+    r = vlib.run_tlc(work, "CacheMC", path, workers=1, timeout=600, heap="2g", simulate="num=%d" % num,
+                     extra=["-depth", str(depth), "-seed", str(sd)])
+    scripts, cur, last_level, cfg = [], None, 10 ** 9, None
+    for line in r["out"].split("\n"):
+        m = SIM_RE.match(line.strip())
+        if not m:
+            continue
+        level = int(m.group(1))
+        a = json.loads(m.group(2).replace('\\"', '"'))
+        cfg = json.loads(m.group(3).replace('\\"', '"'))
+        if level <= last_level:
+            cur = {"cfg": cfg, "ops": []}
+            scripts.append(cur)
+        last_level = level
+        if a["op"] in ("auto", ""):
+            continue
+        a["v"] = a["v"] + 4 * len(cur["ops"]) if a["v"] else 0     # distinguishable values, same table residues mod 4 only by chance
+        cur["ops"].append(a)
+    for sc in scripts:
+        sc["cfg"]["scale"] = [1, 1 << 20, 1 << 30][len(sc["ops"]) % 3]
+        sc["cfg"]["t0"] = 1
+    return [sc for sc in scripts if sc["ops"]]
+
+
 def validate_trace(work, trace, idx):
     """Fold one NDJSON trace through CacheTrace.tla. Returns (n_events, deviations)."""
     devout = os.path.join(work, "dev_%d.json" % idx)
@@ -129,6 +161,14 @@ def run(prop, tier, replay=None):
         if replay:
             jobs.append(("replay", 0, replay))
         else:
+            # B3: spec-derived operation sequences (behaviours of the bounded model) replayed on the real cache
+            for bi, c in enumerate(mcs[:2] if quick else mcs):
+                scs = b3_scripts(work, c, 40 if quick else 300, 30, seed * 31 + bi)
+                if scs:
+                    p3 = os.path.join(work, "b3_%s.json" % c)
+                    with open(p3, "w") as f:
+                        json.dump(scs, f)
+                    jobs.append(("b3:" + c, seed * 31 + bi, p3))
             for rnd in range(rounds):
                 for i, prof in enumerate(profiles):
                     jobs.append((prof, seed * 100003 + rnd * 1009 + i, None))
